@@ -450,3 +450,45 @@ theorem Ev.has_ne_nil {q : List Entry} {f : Nat} (h : Ev.has q f = true) : q ≠
   exact List.ne_nil_of_mem he
 
 end ALock
+
+namespace ALock
+
+/-! ### how many wakers a notification can call -/
+
+theorem notifyO_length_le (n : Nat) (q : List Entry) : (notifyO n q).length ≤ n := by
+  fun_induction notifyO n q <;> simp_all <;> omega
+
+theorem Ev.notifyOwners_length_le (add : Bool) (n : Nat) (q : List Entry) :
+    (Ev.notifyOwners add n q).length ≤ n := by
+  unfold Ev.notifyOwners notifyK
+  split
+  · exact notifyO_length_le n q
+  · have := notifyO_length_le (n - cnt q) q
+    omega
+
+theorem Ev.dropOwners_length_le (q : List Entry) (f : Nat) : (Ev.dropOwners q f).length ≤ 1 := by
+  unfold Ev.dropOwners
+  split
+  · exact Ev.notifyOwners_length_le _ 1 _
+  · simp
+
+theorem filter_ne_length_lt {l : List Nat} {f : Nat} (h : f ∈ l) :
+    (l.filter (· != f)).length < l.length := by
+  induction l with
+  | nil => cases h
+  | cons a t ih =>
+    by_cases ha : a = f
+    · subst ha
+      have := List.length_filter_le (· != a) t
+      simp [List.filter_cons]; omega
+    · have hf : f ∈ t := by
+        rcases List.mem_cons.mp h with h | h
+        · exact absurd h.symm ha
+        · exact h
+      have := ih hf
+      simp [List.filter_cons, ha]; omega
+
+theorem filter_ne_length_le (l : List Nat) (f : Nat) : (l.filter (· != f)).length ≤ l.length :=
+  List.length_filter_le _ _
+
+end ALock
